@@ -8,13 +8,13 @@ claimed["C10"] = (
     "panic, and an accepted header leaves the decoder expecting a positive, limit-respecting number of attachments (never wedged on a negative count); (3) placeholder arithmetic with the number ANY int "
     "(typed Binary path, real reconstructBinaryValue) and ANY float64 incl. NaN/Inf/2^63 (untyped map[string]any path, real reconstructMap with both key orders, through the executor's reflect model): never a "
     "panic; a placeholder is resolved only if it designates an attachment and then to exactly that attachment, otherwise an error. JSON is an opaque stub (may fail, may return 0..2 strings / any number).",
-    "Outside the claim: frames longer than the bound, panics inside encoding/json itself, the struct / slice branches of the reflect walk (Field, Index, Set need reflect's addressability model), the routing of decode "
+    "Outside the claim: frames longer than the bound, panics inside encoding/json itself, the struct / slice branches of the reflect walk on the decode side beyond the shapes of C09_walk_rt, the routing of decode "
     "errors to error handlers / connection close (C05's routing harness covers 'invalid packets close the connection').",
     "5 (C10)")
 
 claimed["C11"] = (
     "Bounded symbolic verification of Engine.IO framing: packet encode/decode round-trip (text, binary frame, base64 with the real encoding/base64 executed from SSA) "
-    "for all payload bytes up to 3 (quick) / 6 (thorough) bytes; payload (0x1e-separated) round-trip for up to 2/3 packets; decode totality on arbitrary bytes; and the "
+    "for all payload bytes up to 3 (quick) / 6 (thorough) bytes; payload (0x1e-separated) round-trip for 0..2/3 packets (EncodedPayloadsLen == bytes written, the empty sequence included); decode totality on arbitrary bytes; and the "
     "WebTransport length prefix for EVERY frame length below 2^40 as one symbolic integer (all three header forms and the boundaries 125/126/65535/65536 are points of "
     "the solver's domain), plus: an arbitrary 9-byte header read through the server's limited reader never causes a buffer above the limit and never panics.",
     "Outside the claim: payloads longer than the byte bounds for content equality (lengths are unbounded in the WebTransport harness but contents there are abstract), gzip, HTTP plumbing, HandshakeResponse JSON. "
@@ -37,7 +37,7 @@ claimed["C18"] = (
     "off() with 0..2/3 arguments; asserts multiset equality with filter-out-all-named, no panic, mutex released. Because the pre-state is arbitrary one step covers all call sequences. "
     "eventHandlerStore.off likewise over two events with handler identity = code pointer (reflect model). The public On/Once/Off wrappers of Manager, Server, Namespace, serverSocket, "
     "clientSocket are executed concretely through the same executor (Off(f) removes f and only f; Once fires once).",
-    "Two occurrences racing (plus an Off) under all interleavings: a Once handler goes to at most one occurrence, an On handler to both. Outside the claim: distinct closures sharing one code pointer (reflect cannot tell them apart - the repo's own notion of identity); lists longer than the bounds.",
+    "Two occurrences racing (plus an Off) under all interleavings: a Once handler goes to at most one occurrence, an On handler to both. Overlapping occurrences: the handler list handed to an occurrence in flight is not changed by later registrations or occurrences, for every n <= 4 (quick) / 9 (thorough) On handlers (all slice capacities crossed), in both stores. Outside the claim: distinct closures sharing one code pointer (reflect cannot tell them apart - the repo's own notion of identity); lists longer than the bounds.",
     "5 (C18)")
 
 claimed["C04"] = (
@@ -45,7 +45,7 @@ claimed["C04"] = (
     "exclusion set E (plus the sender's own-id room, as a socket's broadcast operator adds), the real Broadcast (apply/computeExceptSids, mapset library code executed from SSA) delivers to exactly "
     "the sockets the 5-line reference selects, once each, never to the sender; one membership operation (join, leave, leave-all, SocketsJoin, SocketsLeave, DisconnectSockets with sockets calling back "
     "into the adapter) from every such state yields exactly the specified new membership and preserves the representation invariant (rooms/sids mutually inverse, no empty room kept) - one inductive "
-    "step covers histories of any length over that universe. To/Except immutability is checked concretely.",
+    "step covers histories of any length over that universe. C04_select_own lets T and E also contain the sockets' own-id rooms (To(socketID)/Except(socketID): a socket selected through its own room AND a joined room is still reached once), for Broadcast and FetchSockets, 2x2 (quick) / 3x2 (thorough). To/Except immutability is checked concretely.",
     "Also: a broadcast racing a join / leave / disconnect of a third socket under all interleavings (interval semantics: member throughout exactly once, non-member never, changing socket at most once). Outside the claim: multi-node adapters; universes larger than 3x3; end-to-end delivery. "
     "Map iteration follows insertion order in the executor (Go leaves it unspecified).",
     "5 (C04)")
@@ -64,9 +64,15 @@ claimed["C09"] = (
     "<type>[<n>-][<nsp>,][<id>]<json> and then parsed back by the real parseHeader, with one field symbolic at a time: all 7 packet types x namespace ''/'/'/'/'+x (x up to 2/4 symbolic comma-free bytes, "
     "ALL byte values); ack id symbolic below 10^4 (quick) / 10^6 (thorough) through the real strconv.FormatUint/ParseUint executed from SSA; attachment count symbolic 0..999; event names of up to 2/4 symbolic "
     "bytes over printable ASCII (quotes and backslashes included) followed or not by a further argument. JSON is a string-literal model that `sv selftest C09` validates natively against encoding/json "
-    "(exhaustively on short strings) on every run.",
-    "Outside the claim (structural): argument trees and everything encoding/json does beyond string literals; the reflect walk that swaps Binary leaves for placeholders ('every attachment in its place', "
-    "'encoding leaves its input intact' - see DESIGN.md F18); ack ids above the bound (the digit loop is the same code; 64-bit div/mod chains exceed the solver budget); non-ASCII / control characters in event names.",
+    "(exhaustively on short strings) on every run. "
+    "The binary walk (real deconstruct*/reconstruct*/hasBinary through the executor's reflect model with addressability: Field, Index, CanSet, Set, SetBytes, MakeSlice, SetMapIndex): a menu of 15 argument trees "
+    "(struct pointer / struct value / map[string]any / []any / bare Binary / []Binary / two leaves in one struct / pointer and interface fields / slice->map->struct pointer / *Binary (refused) / map[string]Binary / "
+    "[]*struct / [][]any / map in map / struct value with interface field) with ANY bytes in 1..2 Binary leaves of 0..2 (quick) / 0..3 (thorough) bytes each: the frames are exactly '5<n>-' + the JSON text with the "
+    "n-th leaf (walk order) replaced by {\"_placeholder\":true,\"num\":n} + the n attachments byte-identical and in order; the caller's values are unchanged afterwards (snapshot comparison); encoding the same "
+    "values again yields the same frames; and the frames fed to a second parser's Add complete exactly once with the last frame and decode (typed struct, map[string]any, map[string]Binary targets) to byte-identical "
+    "leaves. The JSON library is a structural renderer that `sv selftest C09` compares with encoding/json on the whole menu.",
+    "Outside the claim (structural): everything encoding/json does beyond string literals and the shapes of the menu (numbers, unicode escapes, field tags, map key order with several keys); argument trees outside "
+    "the menu; ack ids above the bound (the digit loop is the same code; 64-bit div/mod chains exceed the solver budget); non-ASCII / control characters in event names.",
     "5 (C09)")
 
 claimed["C15"] = (
@@ -95,13 +101,15 @@ claimed["C03"] = (
     "timer goroutine in EVERY order at synchronisation points: the callback runs exactly once, a winning reply carries its own arguments, no reply => ErrAckTimeout, entry removed, no mutex held, nothing blocked; "
     "(2) three outstanding acks and a reply with an ARBITRARY symbolic uint64 id, delivered twice: only the callback registered under exactly that id runs, at most once, unknown/duplicate ids reach the error "
     "handlers; (3) client socket offline: 1..2 (quick) / 1..3 (thorough) buffered emits of 1..3/4 frames with and without acks, the timeout of one fires while it is still buffered: callback exactly once with "
-    "ErrAckTimeout, buffer == frames of the other packets in order, sendBufferMu free, socket still usable.",
+    "ErrAckTimeout, buffer == frames of the other packets in order, sendBufferMu free, socket still usable; "
+    "(4) through the public Emit / Timeout(d).Emit on a client socket and on a server socket: the peer answers before the emitter has returned from the send (client: inside the send hook; server: a peer thread "
+    "that may run at every scheduling point once the frame is queued): the callback gets that reply exactly once, no timeout; (5) a handler calling its ack function from two goroutines produces exactly one ACK.",
     "Bounds: preemption bound 3. Outside the claim: real timer durations (the claim is about every ORDER), the wire format of ACK packets (C09), nothing else known.",
     "5 (C03)")
 
 claimed["C12"] = (
     "Bounded symbolic execution of the admission and event-middleware kernels on a server built from the real stores, namespaces, in-memory adapters and packet queue (transport and encoder are recording stand-ins): "
-    "(1) chains of 0..3 (quick) / 0..5 (thorough) namespace middlewares, each accepting or rejecting by a symbolic Boolean (every accept/reject vector), rejection as error / string / structured data, default and custom "
+    "(1) chains of 0..3 (quick) / 0..5 (thorough) namespace middlewares, each accepting or rejecting by a symbolic Boolean (every accept/reject vector), rejection as error / string / struct pointer / struct VALUE with any int field (zero included) / ANY string of length 0..1 (empty included), default and custom "
     "namespace, through the real serverConn.connect -> Namespace.add -> runMiddlewares -> doConnect -> onConnect: run order and short-circuit, socket listed / in own room / connected / connection handlers run IFF no "
     "rejection, exactly one CONNECT_ERROR carrying the rejecting middleware's data and nothing of the socket left otherwise; (2) an event middleware registered through the real Use (signature check on the reflect "
     "model) with five handler signature families (first parameter string / int / struct, no parameters, with ack function): it sees the event's NAME and arguments before the handler, a rejected event never "
@@ -187,7 +195,8 @@ claimed["C01"] = (
     "routing by namespace -> real dispatch by event name (event handler store) -> handler call through the reflect model. Symbolic: event name choice (two names with handlers, one without; a same-named handler "
     "in another namespace), 0..2 binary attachments of 0..2 SYMBOLIC bytes each (so the 0x1e record separator, 'b', digits are points of the solver's domain), framing mode, 1 (quick) / 1..2 (thorough) events. "
     "Asserts: the event reaches exactly the peer's handler(s) registered for that name in that namespace, exactly once, with byte-identical attachments in their places; an event without handler reaches nobody; "
-    "no half-assembled packet stays in the decoder; the connection is not closed. The Socket.IO codec is a frame-preserving stand-in here: header/JSON are C09's subject, Engine.IO framing is C11's, the queue C02/C19's.",
+    "no half-assembled packet stays in the decoder; the connection is not closed. C01_upgrade_server: two two-frame events (one queued on the real polling transport, or both concurrent) around the real "
+    "Engine.IO upgradeTo under all interleavings: every frame reaches the new transport exactly once and the frames of each event stay adjacent and in order. The Socket.IO codec is a frame-preserving stand-in here: header/JSON are C09's subject, Engine.IO framing is C11's, the queue C02/C19's.",
     "Outside the claim (structural for this family): argument trees through encoding/json and the reflect walk, sizes near 32 KiB / 64 KiB / MaxBufferSize and the transports' read limits (C13 decides the limit kernels it lists), "
-    "real transports and the polling->websocket upgrade in flight (C07 kernel), connection state recovery's emit branch, concurrent emitters (C02), 2..3 clients.",
+    "real network transports, the client side of the upgrade (C07 kernel), connection state recovery's emit branch, concurrent emitters (C02), 2..3 clients.",
     "5 (C01)")
